@@ -273,6 +273,31 @@ def c11(rep, tier):
         A.check(okset and cleared is None, 'apply_macros: the rewrite sets the change flag', 'every splice is accompanied by %s = true and the flag is not cleared before the pass ends' % flag['name'],
                 ('the flag is cleared again at line %s after a splice in the same pass' % cleared.e['loc'][0]) if cleared else 'a splice can happen without the change flag being set',
                 W(am, (cleared.e if cleared else (mut_evs[0].e if mut_evs else None)), mm.facts))
+    # a match that was found is rewritten: inside the branch that holds the splice no path leaves that branch without splicing
+    if mut_evs and bud_cond is not None:
+        mut_exprs = [mv.e for mv in mut_evs]
+        holder = None
+        for st in walk_stmts(mm.budget['body']):
+            if st['k'] == 'if' and st.get('t') is not None and all(any(x is me for x in walk_all_exprs(st['t'])) for me in mut_exprs):
+                holder = st          # the innermost one is visited last (pre-order walk)
+        if holder is not None:
+            inside = set(id(x) for x in walk_stmts(holder['t']))
+            bts = [n for n in g.nodes if n.kind == 'branch' and n.of is not None and n.of.stmt is holder and n.label is True]
+            mut_nodes = set(mv.node.id for mv in mut_evs)
+            escaped = None
+            seen_n, work_n = set(), list(bts)
+            while work_n and escaped is None:
+                n = work_n.pop()
+                if n.id in seen_n or n.id in mut_nodes:
+                    continue
+                seen_n.add(n.id)
+                if n not in bts and (n.stmt is None or id(n.stmt) not in inside) and not (n.kind == 'branch' and n.of is not None and n.of.stmt is not None and id(n.of.stmt) in inside):
+                    escaped = n
+                    break
+                work_n.extend(n.succ)
+            A.check(escaped is None, 'apply_macros: a match that was found is rewritten', 'inside `if (%s)` every path reaches the splice' % show(holder['c'])[:50],
+                    'inside `if (%s)` a path leaves without splicing: a pattern still matches, nothing is rewritten and the pass counts as "nothing changed" - the '
+                    'expansion stops unfinished without the too-many-substitutions error' % show(holder['c'])[:50], W(am, holder, mm.facts))
     # the budget loop is left only by its bound or by "nothing changed in this pass"
     def exits_of(loop):
         out = []
@@ -384,6 +409,23 @@ def c11(rep, tier):
                 if not after:
                     continue
                 val = strip_casts(e['r'])
+                if e.get('op', '=') == '=' and any(is_call(x, '::detect') for x in walk_expr(e['r'])) and not any(
+                        y.get('k') == 'ref' and y.get('d') == flag.get('d') for y in walk_expr(e['r'])):
+                    # flag = d.detect(..)  in a loop over detectors that goes on afterwards: the last detector decides alone
+                    for st in walk_stmts(am['body']):
+                        if st is mm.budget or st['k'] not in ('rangefor', 'for', 'while') or not any(x is e for x in walk_all_exprs(st.get('body'))):
+                            continue
+                        innermost = not any(st2 is not st and st2['k'] in ('rangefor', 'for', 'while') and any(x is e for x in walk_all_exprs(st2.get('body')))
+                                            for st2 in walk_stmts(st.get('body')))
+                        if not innermost:
+                            continue
+                        stops = (st.get('c') is not None and any(y.get('k') == 'ref' and y.get('d') == flag.get('d') for y in walk_expr(st['c']))) or \
+                            any(s2['k'] in ('break', 'return') for s2 in walk_stmts(st.get('body')))
+                        if not stops:
+                            B.violation('apply_macros: flag after the loop', 'after the budget loop the flag is recomputed as `%s` for each detector in turn without stopping at the first match: '
+                                        'the last detector visited decides alone, so an unfinished expansion is returned without the too-many-substitutions error whenever the macro '
+                                        'that still matches is not the last one of its bin' % show(e)[:70], W(am, e, mm.facts),
+                                        witness={'macros': 'DEFINE spin AS spin END DEFINE  DEFINE other AS x END DEFINE', 'input': 'x0 := spin'})
                 if val.get('k') == 'bool' and val.get('v') is False or val.get('v') is False:
                     # cleared after the loop: sound only if *no* usable detector matches any more
                     gtxt = ' '.join(show(c) for c, l, cn in g.guards_of(ev))
@@ -1157,6 +1199,7 @@ def c09(rep, tier):
     G = rep.rule('C09.g', 'a detector scans start positions ascending and returns the first accepted, constraint-satisfying match', floor=1)
     detect_rule(G, mm)
     table_columns_rule(G, mm)
+    driver_rejects_rule(G, mm)
 
 
 def insertion_index_range_rule(E, mm):
@@ -1361,6 +1404,48 @@ def table_columns_rule(G, mm):
         'token kind(s) %s have values above the largest terminal of the slot grammar (%d): the action table has no column for them and the driver rejects - a macro use '
         'that is followed by such a token is not recognised' % ([k for v, k in beyond][:6], width), W(mm.facts.fn('MacroDetector::MacroDetector'), None, mm.facts),
         witness={'input': 'a macro use directly followed by %s' % beyond[0][1]} if beyond else None)
+
+
+def driver_rejects_rule(G, mm):
+    """The table-driven parser gives up only where the tables say so: a REJECT result is returned under `the look-ahead has no column`
+    or in the arm of the empty cell (default / ERR) - not depending on how much input was read or how deep the stacks are."""
+    drv = [f for f in mm.facts.functions if f['q'].endswith('::parse') and 'LRParser' in f['q'] and f['tmpl'] == 'inst' and f.get('body') is not None]
+    if not drv:
+        G.unknown('LR driver: reasons to reject', 'no instantiation of LRParser::parse in macro.cpp')
+        return
+    for f in drv[:1]:
+        g = mm.M.cfg(f)
+        n = 0
+        for st in walk_stmts(f['body']):
+            if st['k'] != 'return' or st.get('e') is None:
+                continue
+            names = [x.get('name') for x in walk_expr(st['e']) if x.get('k') == 'ref' and x.get('dk') == 'enumerator']
+            if 'REJECT' not in names:
+                continue
+            n += 1
+            top = strip_casts(st['e'])
+            ev_ = g.by_sid.get(top.get('sid')) or next((g.by_sid[x.get('sid')] for x in walk_expr(st['e']) if x.get('sid') in g.by_sid), None)
+            if ev_ is None:
+                G.unknown('LR driver: reasons to reject', 'a REJECT result is not in the flow graph')
+                continue
+            why = None
+            for c, lab, cn in g.guards_of(ev_):
+                txt = show(c)
+                if isinstance(lab, tuple) and lab[0] == 'case':
+                    if set(lab[1]) & {'SHIFT', 'REDUCE', 'ACCEPT'}:
+                        why = why or 'in the %s arm' % '/'.join(str(x) for x in lab[1])
+                    continue
+                if isinstance(lab, bool):
+                    if 'action' in txt and 'size()' in txt:
+                        continue        # the column test
+                    if 'end()' in txt and ('ip' in txt or 'begin' in txt or '==' in txt) and 'size()' not in txt:
+                        continue        # input exhausted
+                    why = 'when (%s) is %s' % (txt[:80], str(lab).lower())
+            G.check(why is None, 'LR driver: REJECT at line %d' % st['loc'][0], 'returned for a look-ahead without a column or an empty cell only',
+                    'the driver also rejects %s: input that the tables accept is refused depending on something else than the tables (a slot content '
+                    'that is long or deeply nested is not matched, the leftmost step is skipped)' % why, W(f, st, mm.facts))
+        if n == 0:
+            G.unknown('LR driver: reasons to reject', 'no REJECT result found in LRParser::parse')
 
 
 def detect_rule(G, mm):
@@ -1901,7 +1986,19 @@ def c12(rep, tier):
         if not (src is not None and src.get('k') == 'ref' and any(src.get('d') == lv['d'] for lv in loopvars)):
             okf = False
             whyf = 'a detector is pushed that was not built from the definition being visited (%s): its parse tables (and conflict verdict) come from another pattern' % show(e)[:80]
-    Ff.check(okf, 'get_detectors', '%d push(es), each MacroDetector(def) of the visited definition' % len(pushes), whyf, W(gd, None, mm.facts))
+    # ... for every definition: the push is not under a condition (no definition is skipped)
+    if okf:
+        ggd = mm.M.cfg(gd)
+        for e in pushes:
+            if e.get('sid') not in ggd.by_sid:
+                continue
+            gs_ = [(c, lab) for c, lab, cn in ggd.guards_of(ggd.ev(e)) if isinstance(lab, bool)]
+            if gs_:
+                okf = False
+                whyf = 'a definition gets a detector only when (%s) is %s: the other definitions are never applied and their patterns never checked - which of two ' \
+                       'definitions is used then depends on the order of definition' % (show(gs_[0][0])[:90], str(gs_[0][1]).lower())
+    Ff.check(okf, 'get_detectors', '%d push(es), each MacroDetector(def) of the visited definition' % len(pushes), whyf, W(gd, None, mm.facts),
+             witness={'input': 'DEFINE PRIO 1 <V> ++ AS a END DEFINE  DEFINE PRIO 9 <V> ++ AS b END DEFINE  x ++'} if not okf else None)
     E = rep.rule('C12.e', 'in prefix mode an item whose look-ahead is the end marker places its action in every column; container keys '
                           'of the LR construction are discriminating strict weak orders', floor=4)
     for f in gpt:
@@ -1934,6 +2031,38 @@ def c12(rep, tier):
             E.violation('operator<(%s)' % f['params'][0]['cty'], 'the order does not discriminate distinct keys: %s' % ex, W(f, None, kf))
         except cmpeval.Unsupported as ex:
             E.unknown('operator<(%s)' % f['params'][0]['cty'], str(ex))
+    # the automaton is complete: the work-list loop of elements() expands every state it ever adds and every transition of it - a state
+    # that is left unexpanded has no actions, and the conflict that sits behind it is never seen
+    el = kf.fn('Theo::elements', optional=True)
+    if el is None:
+        E.unknown('elements(): every state is expanded', 'Theo::elements not found')
+    else:
+        rep.analysed(el)
+        outer = [st for st in walk_stmts(el['body']) if st['k'] in ('for', 'while') and any(x['k'] in ('rangefor', 'for') for x in walk_stmts(st.get('body')))]
+        if len(outer) != 1 or outer[0]['k'] != 'for' or outer[0].get('c') is None:
+            E.unknown('elements(): every state is expanded', 'work-list loop not recognised')
+        else:
+            L = outer[0]
+            c = strip_casts(L['c'])
+            whyl = None
+            ok_cond = c.get('k') == 'bin' and c['op'] in ('<', '!=') and is_call(strip_casts(c['r']), '::size') and strip_casts(c['l']).get('k') == 'ref'
+            if not ok_cond:
+                if c.get('k') == 'bin' and c['op'] == '&&':
+                    whyl = 'the loop over the states also stops when (%s) fails: states beyond that point are never expanded' % show(c)[:80]
+                else:
+                    E.unknown('elements(): every state is expanded', 'loop condition %s' % show(c)[:60])
+                    whyl = ''
+            jumps = [x for x in walk_stmts(L['body']) if x['k'] in ('break', 'continue', 'return')]
+            if whyl is None and jumps:
+                whyl = 'the expansion of a state can be cut short (%s at line %d): some of its transitions are never built' % (jumps[0]['k'], jumps[0]['loc'][0])
+            inc = show(L.get('inc') or {})
+            if whyl is None and not ('++' in inc):
+                whyl = ''
+                E.unknown('elements(): every state is expanded', 'loop increment %s' % inc[:40])
+            if whyl != '':
+                E.check(whyl is None, 'elements(): every state is expanded', 'for (i = 0; i < result.size(); i++) over a growing list, no early exit',
+                        (whyl or '') + ': the unexpanded states have no actions, so a conflict behind them is not found and an ambiguous pattern is accepted', W(el, L, kf),
+                        witness={'input': 'a long pattern with several <V>/<P> slots whose conflict state lies behind the cut'} if whyl else None)
 
 
 def _action_writes(f):
